@@ -147,7 +147,10 @@ def run_case(case: dict) -> dict:
             del slack
         # ---- the tf.data pipeline object returned for a repeating stream is iterated, abandoned mid-epoch and
         #      iterated again (fit, then evaluate): every iteration is the periodic stream from its start
-        if "tfds" in ifaces:
+        # (Not on TFRecord datasets: there the pipeline is TensorFlow's own from end to end, and destroying an
+        # endless native iterator while threads of an abandoned concurrent TFRecord stream are still inside
+        # TensorFlow was seen to block inside TensorFlow - DESIGN §4, observation (v).)
+        if "tfds" in ifaces and fmt != "tfrec":
             split = rng.choice(splits)
             ref = reference(split)
             par = rng.choice([1, 2, 3])
